@@ -23,7 +23,7 @@ type c08Item struct {
 }
 
 func (it c08Item) isValue() bool {
-	return it.kind != 'C' && it.kind != 'S' && it.kind != 'R' && it.kind != 'O'
+	return it.kind != 'C' && it.kind != 'S' && it.kind != 'R' && it.kind != 'O' && it.kind != 'M'
 }
 
 type c08Named interface {
@@ -75,6 +75,15 @@ func c08Build(items []c08Item) (*ir.Func, []c08Named) {
 			// the targets are filled in afterwards (next blocks), a self reference is enough for numbering
 			t := cur.NewInvoke(callee, nil, cur, cur)
 			objs = append(objs, t)
+		case 'W':
+			// catchswitch: a terminator with a (token) value
+			objs = append(objs, cur.NewCatchSwitch(constant.None, []*ir.Block{cur}, nil))
+		case 'L', 'M':
+			callee := intF
+			if items[i].kind == 'M' {
+				callee = voidF
+			}
+			objs = append(objs, cur.NewCallBr(callee, nil, cur, cur))
 		}
 	}
 	for k, it := range items {
@@ -102,12 +111,12 @@ func c08GenShape(r *rng) []c08Item {
 			kind := "IIICSVV"[r.intn(7)]
 			items = append(items, c08Item{kind: kind, named: r.chance(35) && kind != 'S'})
 		}
-		t := "RRRNO"[r.intn(5)]
-		items = append(items, c08Item{kind: t, named: r.chance(30) && t == 'N'})
+		t := "RRRRNOWLM"[r.intn(9)]
+		items = append(items, c08Item{kind: t, named: r.chance(30) && (t == 'N' || t == 'W' || t == 'L')})
 	}
 	// void calls and void invokes can carry no name
 	for i := range items {
-		if items[i].kind == 'C' || items[i].kind == 'O' || items[i].kind == 'R' {
+		if items[i].kind == 'C' || items[i].kind == 'O' || items[i].kind == 'R' || items[i].kind == 'M' {
 			items[i].named = false
 		}
 	}
@@ -282,6 +291,16 @@ func c08Text(r *rng, items []c08Item, explicit bool, perturb int) (string, int) 
 			} else {
 				fmt.Fprintf(&b, "\tinvoke %s @vf() to label %s unwind label %s\n", []string{"void", "void ()"}[r.intn(2)], tgt, tgt)
 			}
+		case 'W':
+			tgt := "%" + c08BlockLabel(items, want, i)
+			fmt.Fprintf(&b, "\t%scatchswitch within none [label %s] unwind to caller\n", lhs, tgt)
+		case 'L', 'M':
+			tgt := "%" + c08BlockLabel(items, want, i)
+			if it.kind == 'L' {
+				fmt.Fprintf(&b, "\t%scallbr i32 @if() to label %s [label %s]\n", lhs, tgt, tgt)
+			} else {
+				fmt.Fprintf(&b, "\tcallbr void @vf() to label %s [label %s]\n", tgt, tgt)
+			}
 		}
 	}
 	b.WriteString("}\n")
@@ -429,11 +448,32 @@ func c08ModuleText(r *rng) (src string, enc []string, kinds []byte, named []bool
 	b.WriteString("@tg = global i32 0\ndeclare void @tf()\n")
 	id := 0
 	enc = append(enc, "G:1", "F:1")
+	var refs []string
 	for i := range kinds {
+		// definitions of other namespaces in between, with IDs of their own: they take no global number
+		if r.chance(35) {
+			k := 10*i + r.intn(10)
+			switch r.intn(5) {
+			case 0:
+				fmt.Fprintf(&b, "attributes #%d = { nounwind }\n", k)
+			case 1:
+				fmt.Fprintf(&b, "!%d = !{}\n", k)
+			case 2:
+				fmt.Fprintf(&b, "%%t%d = type { i32 }\n", k)
+			case 3:
+				fmt.Fprintf(&b, "$c%d = comdat any\n", k)
+			default:
+				fmt.Fprintf(&b, "!n%d = !{}\n", k)
+			}
+		}
 		nm := fmt.Sprintf("@%d", id)
 		if named[i] {
 			nm = fmt.Sprintf("@m%d", i)
 		} else {
+			if kinds[i] == 'G' {
+				// a use of the unnamed global by its number: it must bind the global initialised with i
+				refs = append(refs, fmt.Sprintf("@ref%d = global i32* @%d\n", i, id))
+			}
 			id++
 		}
 		switch kinds[i] {
@@ -448,6 +488,10 @@ func c08ModuleText(r *rng) (src string, enc []string, kinds []byte, named []bool
 		}
 		enc = append(enc, fmt.Sprintf("%c:%s", kinds[i], b2s(named[i])))
 	}
+	for _, ref := range refs {
+		b.WriteString(ref)
+		enc = append(enc, "G:1")
+	}
 	return b.String(), enc, kinds, named
 }
 
@@ -456,10 +500,23 @@ func c08Module(c *config, r *rng, sample bool) {
 	src, enc, kinds, named := c08ModuleText(r)
 	var text string
 	stage := "parse"
+	misbound := ""
 	oc, msg := guard(func() error {
 		m, err := asm.ParseString("c08m.ll", src)
 		if err != nil {
 			return err
+		}
+		// every @ref<i> holds the address of the unnamed global that was initialised with i
+		for _, g := range m.Globals {
+			var i int64
+			if n, _ := fmt.Sscanf(g.Name(), "ref%d", &i); n == 1 {
+				tgt, ok := g.Init.(*ir.Global)
+				if !ok {
+					misbound = g.Name() + " is not bound to a global variable"
+				} else if ci, ok := tgt.Init.(*constant.Int); !ok || ci.X.Int64() != i {
+					misbound = fmt.Sprintf("%s is bound to %s, not to the unnamed global initialised with %d", g.Name(), tgt.LLString(), i)
+				}
+			}
 		}
 		stage = "print"
 		text = m.String()
@@ -497,6 +554,11 @@ func c08Module(c *config, r *rng, sample bool) {
 	if oc != ocOk {
 		o.Fail("print_after_parse", cls, "a valid module is rejected or printing fails at "+stage, det)
 		return
+	}
+	if misbound != "" {
+		o.Fail("unnamed_global_binding", "", misbound, det)
+	} else {
+		o.Pass("unnamed_global_binding")
 	}
 	m2, err := asm.ParseString("c08n.ll", text)
 	if err != nil || m2.String() != text {
